@@ -42,6 +42,8 @@ struct Rig {
     odk_port: doubles::Shared,
     pumps: Rc<RefCell<Vec<Pump>>>,
     serial: Rc<RefCell<SerialSignBus<InstrPort>>>,
+    /// the controller-side port's state (to make its writes block, see `scenario`)
+    ctl_port: doubles::Shared,
 }
 
 fn population(addrs: &[u16], autos: &[bool]) -> VirtualSignBus<'static> {
@@ -86,9 +88,10 @@ fn build(addrs: &[u16], autos: &[bool]) -> Rig {
         let (odk, vbus, c2o, st, pumps) = (odk.clone(), vbus.clone(), c2o.clone(), odk_port_state.clone(), pumps.clone());
         Box::new(move || pump(&odk, &vbus, &c2o, &st, &pumps))
     };
-    let ctl_port = InstrPort { st: doubles::shared(doubles::WEIRD_SETTINGS), wiring: Wiring::Link { rx: o2c.clone(), tx: c2o.clone(), on_line: Some(on_line) } };
+    let ctl_state = doubles::shared(doubles::WEIRD_SETTINGS);
+    let ctl_port = InstrPort { st: ctl_state.clone(), wiring: Wiring::Link { rx: o2c.clone(), tx: c2o.clone(), on_line: Some(on_line) } };
     let serial = Rc::new(RefCell::new(SerialSignBus::try_new(ctl_port).expect("serial bus setup")));
-    Rig { vbus, odk, c2o, o2c, odk_port: odk_port_state, pumps, serial }
+    Rig { vbus, odk, c2o, o2c, odk_port: odk_port_state, pumps, serial, ctl_port: ctl_state }
 }
 
 /// The bridge predicates over the recorded pumps.
@@ -195,7 +198,14 @@ fn scenario(ctx: &Ctx, idx: u64, rep: &mut Report) {
     let mut types: Vec<usize> = (0..n_signs).map(|k| (idx as usize + k * 3) % TYPES.len()).collect();
     let rig = build(&addrs, &autos);
     let direct = Rc::new(RefCell::new(population(&addrs, &autos)));
-    let n_acts = 1 + rng.usize(6);
+    // every 16th scenario runs over a slow line: each write call of the controller's port blocks for 31..45 ms (longer
+    // than the pacing pause) before it succeeds — slower, but the transport must stay transparent
+    let slow_line = idx % 16 == 5;
+    if slow_line {
+        rig.ctl_port.borrow_mut().write_stall = Some(std::time::Duration::from_millis(31 + rng.below(15)));
+        rep.count("scenarios_over_a_slow_line");
+    }
+    let n_acts = if slow_line { 1 + rng.usize(3) } else { 1 + rng.usize(6) };
     let mut acts = vec![];
     for _ in 0..n_acts {
         let who = rng.usize(n_signs);
@@ -486,6 +496,7 @@ pub fn run(ctx: &Ctx) -> Outcome {
         floor("raw lines injected at the bridge", report.get("raw_lines_injected") > 300, report.get("raw_lines_injected")),
         floor("undecodable lines at the bridge", report.get("bridge_undecodable_lines") > 100, report.get("bridge_undecodable_lines")),
         floor("I/O faults at the bridge's own port (read fault at every byte, write fault at every call)", report.get("bridge_read_faults") > 100 && report.get("bridge_write_faults") > 50, report.get("bridge_write_faults")),
+        floor("scenarios over a line whose writes block longer than the pacing pause", report.get("scenarios_over_a_slow_line") >= 20, report.get("scenarios_over_a_slow_line")),
         floor("bridge pumps checked", report.get("bridge_pumps_checked") > 1000, report.get("bridge_pumps_checked")),
     ];
     Outcome {
